@@ -117,6 +117,8 @@ unsafe impl GlobalAlloc for Alloc {
             if result.is_null() {
                 self.used.fetch_sub(new_size, Ordering::Release);
             } else {
+                // The old block is gone, what remains is the peak.
+                self.max.fetch_max(new_used - old_size, Ordering::Relaxed);
                 self.used.fetch_sub(old_size, Ordering::Release);
             }
             result
